@@ -20,7 +20,7 @@ TRUSTED = ["each cube's combined WCS evaluated on pixel grids is the reference f
            "the WCS's world_axis_object_components accessors turn the returned high-level objects back into world values"]
 ASSUMPTIONS = ["all cubes of a sequence have the same WCS structure (axes, units, physical types), different values",
                "angles compared modulo 360 deg, other values at rtol/atol 1e-9"]
-FAMILIES = ["probe", "probe_coupled", "fits_sep", "fits_cel", "fits_rot", "gwcs"]
+FAMILIES = ["probe", "probe_coupled", "fits_sep", "fits_cel", "fits_rot", "gwcs", "fits_cel3", "fits_cel3"]
 
 
 def corpus():
